@@ -825,7 +825,10 @@ pub fn check_c20(h: &mut Hist, ctx: &mut Ctx) {
                     .filter(|(_, s): &(String, BTreeSet<(H, u32)>)| !s.is_empty())
                     .collect();
                 if &got != exp {
-                    problems.push(format!("{}-outpoints of block {} differ from the block's content", name, short(b)));
+                    let render = |m: &BTreeMap<String, BTreeSet<(H, u32)>>| -> String {
+                        m.iter().map(|(a, s)| format!("{}:[{}]", &a[..a.len().min(14)], s.iter().map(|(t, v)| format!("{}:{}", hex::encode(&t[..3]), v)).collect::<Vec<_>>().join(","))).collect::<Vec<_>>().join(" ")
+                    };
+                    problems.push(format!("{}-outpoints of block {} differ from the block's content (cached {{{}}} vs block {{{}}})", name, short(b), render(&got), render(exp)));
                 }
             }
         }
